@@ -67,6 +67,7 @@ def replay_walks(v, g, walks, exe, obj, to_cmd, init_cmd, tag, sig_of=None, chun
     validated = 0
     nsteps = 0
     crashes = 0
+    crash_sigs = {}
     # work list of (first walk index, list of walk indices)
     todo = [list(range(i, min(i + chunk, len(walks)))) for i in range(0, len(walks), chunk)]
     serial = 0
@@ -178,8 +179,13 @@ def replay_walks(v, g, walks, exe, obj, to_cmd, init_cmd, tag, sig_of=None, chun
                              behaviour=[g["init_acts"][str(s0)]] + [act_in(a) for a in acts],
                              diverged_at=ndone, observer=osig, stderr=err[-3000:], cmdfile=cmdfile, walk=bad))
             rest = idxs[idxs.index(bad) + 1:]
-            if rest and crashes <= 60:
+            # the remaining walks of the chunk are replayed, unless this kind of abort has been seen often enough: a change that
+            # makes every other walk hang would otherwise cost one watchdog period per walk
+            crash_sigs[osig] = crash_sigs.get(osig, 0) + 1
+            if rest and crashes <= 60 and crash_sigs[osig] <= (3 if ("watchdog" in osig or "exit-97" in osig) else 12):
                 todo.append(rest)
+            elif rest:
+                v.cov["walks_skipped_after_repeated_aborts"] = v.cov.get("walks_skipped_after_repeated_aborts", 0) + len(rest)
     v.cov["traces_validated_against_impl"] += validated
     v.cov["evaluations"] += nsteps
     return validated
